@@ -313,6 +313,56 @@ def small_cases(tier):
     return out
 
 
+def writer_object_history(res):
+    """K2 over one OP4 object used as writer and reader: EVERY ordered pair (and selected triples) of write/read
+    events over 7 configurations; each written file must be byte-identical to the file a fresh object writes, each
+    read equal to a fresh object's read"""
+    from pyyeti.nastran import op4
+
+    msgs = []
+    M1 = make_matrix(3, 2, 0b101101, "signs", False)
+    M2 = make_matrix(2, 3, 0b011011, "mixcplx", True)
+    cfgs = [dict(binary=True, endian="<", sparse="dense"), dict(binary=True, endian=">", sparse="bigmat"), dict(binary=True, endian="<", sparse="nonbigmat"),
+            dict(binary=False, digits=9, sparse="dense"), dict(binary=False, digits=16, sparse="bigmat"), dict(binary=False, digits=5, sparse="nonbigmat"),
+            dict(binary=True, endian=">", sparse="dense", forms=[2, 2])]
+    names = ["aa", "bb"]
+    base = os.path.join(scratch(), "wh_%d" % os.getpid())
+
+    def fresh_bytes(k):
+        fn = base + "_f%d.op4" % k
+        op4.OP4().write(fn, names, [M1, M2], **cfgs[k])
+        with open(fn, "rb") as f:
+            return f.read()
+
+    with warnings.catch_warnings():
+        warnings.simplefilter("ignore")
+        ref = [fresh_bytes(k) for k in range(len(cfgs))]
+        seqs = [(a, b) for a in range(len(cfgs)) for b in range(len(cfgs))] + [(a, (a + 3) % 7, (a + 5) % 7) for a in range(7)]
+        for seq in seqs:
+            o = op4.OP4()
+            res.traces += 1
+            for step, k in enumerate(seq):
+                fn = base + "_h.op4"
+                res.transitions += 1
+                try:
+                    o.write(fn, names, [M1.copy(), M2.copy()], **cfgs[k])
+                    with open(fn, "rb") as f:
+                        got = f.read()
+                    back = o.listload(fn)
+                except Exception as e:  # noqa
+                    msgs.append((list(seq), "OP4 object history %s: event %d raised %r" % ([cfgs[j] for j in seq], step + 1, e)))
+                    break
+                if got != ref[k]:
+                    msgs.append((list(seq), "OP4 object history %s: the file written by event %d differs from the file a fresh OP4 object writes with the same options" % ([cfgs[j] for j in seq], step + 1)))
+                    break
+                if back[0] != names or not all(np.allclose(todense(X), Y, rtol=1e-4 if cfgs[k].get("digits") == 5 else 1e-8, atol=0) for X, Y in zip(back[1], (M1, M2))):
+                    msgs.append((list(seq), "OP4 object history %s: reading back with the same object after event %d gives wrong content" % ([cfgs[j] for j in seq], step + 1)))
+                    break
+    res.states += len(seqs)
+    res.ev("writer-object-history", n=0)
+    return msgs
+
+
 def boundary_cases(tier):
     out = []
     for rows in (65535, 65536, 65537):
@@ -328,6 +378,7 @@ def boundary_cases(tier):
     out.append(dict(kind="names"))
     out.append(dict(kind="multi"))
     out.append(dict(kind="extra-input"))
+    out.append(dict(kind="writer-history"))
     return out
 
 
@@ -374,6 +425,10 @@ def run_special(case, tier, res):
                 res.ev("names/%s/b%d" % (name, binary))
                 for m in msgs:
                     res.viol(dict(case, name=name, binary=binary), "name %r: %s" % (name, m), kind="names")
+        return
+    if k == "writer-history":
+        for seq, m in writer_object_history(res):
+            res.viol(dict(case, seq=seq), m, kind="writer-history")
         return
     if k == "extra-input":
         for p in range(1, 64):
